@@ -546,7 +546,10 @@ def _dict_array_comp(data):
 
         # Compose complex numbers.
         if '__complex' in key:
-            value = np.asarray(value)[0, ...] + 1j*np.asarray(value)[1, ...]
+            value = np.asarray(value)
+            cvalue = value[0, ...].astype(np.result_type(value.dtype, 1j))
+            cvalue.imag = value[1, ...]  # (a + 1j*b corrupts a if b=inf/nan)
+            value = cvalue[()]
             key = key.replace('__complex', '')
 
         # Store this key-value-pair.
